@@ -17,7 +17,6 @@ MODULE_DEPS = {
     "transform": ["path"],
     "config": [],
     "semaphore": [],
-    "group": ["path"],
     "dedupe__c08": ["path", "file"],
     "lock": ["path"],
     "dedupe__c20": ["path"],
@@ -74,11 +73,6 @@ k("c08_priority_most_nested_bounded", "dedupe::sort_by_priority [MostNested] + F
   cls="bounded", bound="3 sub-groups of one path each, nesting 1 or 2")
 k("c08_priority_top_bottom_bounded", "dedupe::sort_by_priority [Top, Bottom]", module="dedupe__c08", t=600,
   cls="bounded", bound="3 sub-groups of one path each")
-# ---- group.rs
-k("c06_subgroup_count_match_links_bounded", "group::FileGroup::subgroup_count + FileSubGroup::group [--match-links]", module="group", t=1200,
-  cls="bounded", bound="<= 3 files, 2 isolated roots, every placement of the files under/outside the roots")
-k("c06_subgroup_count_by_id_bounded", "group::FileGroup::subgroup_count + FileSubGroup::group [hard links count once]", module="group", t=1800,
-  cls="bounded", bound="<= 3 files, 2 isolated roots, file ids from {1,2,3}", tier="thorough")
 # ---- semaphore.rs
 k("c19_release", "semaphore::Semaphore::release", module="semaphore", t=300)
 k("c19_guard_roundtrip", "semaphore::Semaphore::access + Drop for SemaphoreGuard", module="semaphore", t=300)
@@ -254,6 +248,7 @@ REAL_REPLAY = [
     ("c20_lock_first_softlink", "C20.lock_first.", "lock", "softlink"),
     ("c20_lock_first_reflink", "C20.lock_first.", "lock", "reflink"),
     ("c20_lock_first_move", "C20.lock_first.", "lock", "move"),
+    ("c20_file_lock_new", "C20.file_lock.", "lock_shared", "remove"),
     ("c06_rf_over_contract", "C06.rf_over.contract", "transform_filter", None),
     ("c07_transform_frame", "C07.transform_frame.", "transform_frame", None),
     ("filegroup_counts", "C06.final_filter.group_transformed", "transform_filter", None),
